@@ -6,7 +6,7 @@ NOT_APPLICABLE = {}
 
 PROPS = {
     "C01": {
-        "lean": ["OxiModel.Props.C01"],
+        "lean": ["OxiModel.Props.C01", "OxiModel.Props.C01Layout"],
         "streams": [{"name": "corr-reduce", "quick": 6000, "thorough": 120000},
                     {"name": "corr-geom", "quick": 30, "thorough": 300}],
         "oracles": [{"name": "e2e", "args": ["C01"], "quick": 4000, "thorough": 60000}],
